@@ -59,14 +59,15 @@ def make_domain(token: str, index: int) -> HMMResult:
     end = start + WIDTH
     internal = None
     if isinstance(structure, tuple):
-        internal = [HMMResult(sub, start + 1 + k, end - 1, 1e-5, 50.) for k, sub in enumerate(structure[1])]
+        internal = [HMMResult(sub, start + 1 + k, end - 1, 1.0301e-5, 50.0625 + k) for k, sub in enumerate(structure[1])]
     elif structure:
         inner = None
         for depth, sub in reversed(list(enumerate(structure))):
-            inner = HMMResult(sub, start + 1 + depth, end - 1 - depth, 1e-5, 50. - depth,
+            inner = HMMResult(sub, start + 1 + depth, end - 1 - depth, 1.0301e-5, 50.0625 - depth,
                               internal_hits=[inner] if inner is not None else None)
         internal = [inner]
-    return HMMResult(name, start, end, 1e-10, 100. + index, internal_hits=internal)
+    # scores and e-values with more digits than hmmscan prints (merged or computed values have them)
+    return HMMResult(name, start, end, 1.23456e-10 / (1 + index), 100.0625 + 1.37 * index, internal_hits=internal)
 
 
 def make_domains(tokens) -> list:
